@@ -4,6 +4,7 @@ package roothash
 
 import (
 	tmapi "github.com/oasisprotocol/oasis-core/go/consensus/cometbft/api"
+	roothashState "github.com/oasisprotocol/oasis-core/go/consensus/cometbft/apps/roothash/state"
 	roothash "github.com/oasisprotocol/oasis-core/go/roothash/api"
 )
 
@@ -20,4 +21,18 @@ func VerifTryFinalizeRound(
 ) error {
 	app := New(state, md, nil)
 	return app.tryFinalizeRoundInsideTx(ctx, rtState, timeout)
+}
+
+// VerifExecutorCommit runs the executorCommit transaction handler (verification and admission of
+// all executor commitments carried by one transaction) in the given context.
+//
+// Verification hook (property C11): exports a private method, adds no behaviour.
+func VerifExecutorCommit(
+	ctx *tmapi.Context,
+	state tmapi.ApplicationState,
+	md tmapi.MessageDispatcher,
+	cc *roothash.ExecutorCommit,
+) error {
+	app := New(state, md, nil)
+	return app.executorCommit(ctx, roothashState.NewMutableState(ctx.State()), cc)
 }
